@@ -92,7 +92,9 @@ func (s *inst) Enabled() []op {
 	return append(ops, op{K: "clear"})
 }
 
-func (s *inst) Key() string { return fmt.Sprintf("%s E%v", hiddenKey(s.m), s.emptied) }
+func (s *inst) Key() string {
+	return fmt.Sprintf("%s E%v %s", hiddenKey(s.m), s.emptied, mc.Fingerprint(&s.m))
+}
 
 func apply(m omap.Map[int, int], o op) bool {
 	switch o.K {
@@ -478,6 +480,13 @@ func main() {
 					}
 					res := makeBFS(c, &cnt, r.Hooks, depth).Run(r)
 					sum = append(sum, map[string]any{"cmp": cm, "keys": c.Keys, "states": res.States, "transitions": res.Transitions, "depth": res.Depth, "exhaustive": res.Exhaustive})
+				}
+				if r.Hooks {
+					// every history to a small depth without merging (hidden state no key shows)
+					d := mc.Pick(r, 5, 6)
+					flat := &cfg{Keys: 3, Vals: 2, Cmp: "natural", Light: true}
+					res := makeBFS(flat, &cnt, false, d).Run(r)
+					sum = append(sum, map[string]any{"cmp": "natural", "keys": 3, "unmerged_depth": d, "histories": res.States, "exhaustive": res.Exhaustive})
 				}
 				if r.Hooks {
 					// more keys, one value: an entry can sit deeper than the depth limit of the
